@@ -14,6 +14,35 @@ from ipv import Unit, Ob, Undecided, VERIF, BUILD
 LIBX = '#include <traversal.cxx>\n'
 
 
+
+# nodes no factory hands out directly: made by scopes, regions, blocks, mappings, enumerations, classes; and the built-in constants
+EXTRA = [
+  ('eh_parameter', 'impl::Lexicon& lx, const ipr::Region& r, const ipr::Name& n, const ipr::Type& t', 'const ipr::EH_parameter& i = lx.make_block(r)->new_handler(n, t)->exception();'),
+  ('handler', 'impl::Lexicon& lx, const ipr::Region& r, const ipr::Name& n, const ipr::Type& t', 'const ipr::Handler& i = *lx.make_block(r)->new_handler(n, t);'),
+  ('handler_body', 'impl::Lexicon& lx, const ipr::Region& r, const ipr::Name& n, const ipr::Type& t', 'const ipr::Block& i = static_cast<const ipr::Handler&>(*lx.make_block(r)->new_handler(n, t)).body();'),
+  ('parameter', 'impl::Lexicon& lx, const ipr::Region& r, ipr::Mapping_level l, const ipr::Name& n, const ipr::Type& t', 'const ipr::Parameter& i = *lx.make_mapping(r, l)->param(n, t);'),
+  ('parameter_list', 'impl::Lexicon& lx, const ipr::Region& r, ipr::Mapping_level l', 'const ipr::Parameter_list& i = lx.make_mapping(r, l)->parameters();'),
+  ('enumerator', 'impl::Lexicon& lx, const ipr::Region& r, ipr::Enum::Kind k, const ipr::Name& n', 'const ipr::Enumerator& i = *lx.make_enum(r, k)->add_member(n);'),
+  ('base_type', 'impl::Lexicon& lx, const ipr::Region& r, const ipr::Type& t', 'const ipr::Base_type& i = *lx.make_class(r)->declare_base(t);'),
+  ('subregion', '', 'auto& r = *new impl::Region{ Optional<ipr::Region>{ } }; const ipr::Region& i = *r.make_subregion();'),
+  ('scope', '', 'auto& r = *new impl::Region{ Optional<ipr::Region>{ } }; const ipr::Scope& i = static_cast<const ipr::Region&>(*r.make_subregion()).bindings();'),
+  ('var', 'const ipr::Name& n, const ipr::Type& t', 'auto& r = *new impl::Region{ Optional<ipr::Region>{ } }; const ipr::Var& i = *r.declare_var(n, t);'),
+  ('field', 'const ipr::Name& n, const ipr::Type& t', 'auto& r = *new impl::Region{ Optional<ipr::Region>{ } }; const ipr::Field& i = *r.declare_field(n, t);'),
+  ('bitfield', 'const ipr::Name& n, const ipr::Type& t', 'auto& r = *new impl::Region{ Optional<ipr::Region>{ } }; const ipr::Bitfield& i = *r.declare_bitfield(n, t);'),
+  ('typedecl', 'const ipr::Name& n, const ipr::Type& t', 'auto& r = *new impl::Region{ Optional<ipr::Region>{ } }; const ipr::Typedecl& i = *r.declare_type(n, t);'),
+  ('fundecl', 'const ipr::Name& n, const ipr::Function& t', 'auto& r = *new impl::Region{ Optional<ipr::Region>{ } }; const ipr::Fundecl& i = *r.declare_fun(n, t);'),
+  ('alias', 'const ipr::Name& n, const ipr::Type& t', 'auto& r = *new impl::Region{ Optional<ipr::Region>{ } }; const ipr::Alias& i = *r.declare_alias(n, t);'),
+  ('template', 'const ipr::Name& n, const ipr::Forall& t', 'auto& r = *new impl::Region{ Optional<ipr::Region>{ } }; const ipr::Template& i = *r.declare_primary_template(n, t);'),
+  ('overload', 'const ipr::Name& n, const ipr::Type& t', 'auto& r = *new impl::Region{ Optional<ipr::Region>{ } }; r.declare_var(n, t); const ipr::Overload& i = static_cast<const ipr::Region&>(r).bindings()[n].get();'),
+  ('builtin_type', 'impl::Lexicon& lx', 'const ipr::As_type& i = static_cast<const ipr::As_type&>(lx.int_type());'),
+  ('true_constant', 'impl::Lexicon& lx', 'const ipr::Symbol& i = lx.true_value();'),
+  ('nullptr_constant', 'impl::Lexicon& lx', 'const ipr::Symbol& i = lx.nullptr_value();'),
+  ('nullptr_type', 'impl::Lexicon& lx', 'const ipr::Decltype& i = static_cast<const ipr::Decltype&>(static_cast<const ipr::Expr&>(lx.nullptr_value()).type());'),
+  ('empty_string', '', 'const ipr::String& i = ipr::String::empty_string();'),
+  ('reserved_identifier', 'impl::Lexicon& lx', 'const ipr::Identifier& i = static_cast<const ipr::Identifier&>(lx.int_type().name());'),
+]
+
+
 def node_factories(recs, facs):
     """factories whose result is an ipr::Node (has accept(ipr::Visitor&))"""
     out = []
@@ -32,13 +61,16 @@ def build(tier, seed):
     leaf = [h for h in hs if not h['pure'] and h['cls'].split('::')[-1] not in F.HOOK_SINKS]
     head = F.LIB % (ipv.REPO, VERIF) + LIBX + F.visitor_text(hs) + 'namespace drv {\n'
     head += ('   template<class I> inline unsigned accept_bad(const I& i)\n   {\n      Rec v; i.accept(v); unsigned bad = 0;\n      if (v.calls != 1) bad |= 1u;\n      if (v.id != hook_id(i)) bad |= 2u;\n'
-             '      if (v.who != static_cast<const void*>(static_cast<const ipr::Node*>(&i))) bad |= 4u;\n      if (i.category != static_code(i)) bad |= 8u;\n      return bad;\n   }\n')
+             '      if (v.who != static_cast<const void*>(static_cast<const ipr::Node*>(&i))) bad |= 4u;\n      return bad;\n   }\n')
     head += '   inline int super_hook_id(const ipr::Classic& x) { return hook_id(static_cast<const ipr::Expr&>(x)); }      // Classic is declared `struct Classic : Expr`\n'
     others = {}
     def node_wrapper(k, f):
         ps = list(f['params']); names = ['a%d' % j for j in range(len(ps))]
+        ifc = F.interface_of(recs, F.pointee(f['ret_canon']))
         w = 'unsigned c06_%s(%s& f%s)\n{\n   const auto& n = deref(f.%s(%s));\n   const %s& i = n;\n   unsigned bad = accept_bad(i);\n' % (
-            f['cid'], f['cls'], ''.join(', %s %s' % (p, a) for p, a in zip(ps, names)), f['name'], ', '.join(names), F.interface_of(recs, F.pointee(f['ret_canon'])))
+            f['cid'], f['cls'], ''.join(', %s %s' % (p, a) for p, a in zip(ps, names)), f['name'], ', '.join(names), ifc)
+        # the category code is the enumerator SPELLED LIKE the interface class (independent of the Category<> base it declares)
+        w += '   if (i.category != ipr::Category_code::%s || static_code(i) != ipr::Category_code::%s) bad |= 8u;\n' % (ifc.split('::')[-1], ifc.split('::')[-1])
         # VIEW: own category, and two other leaf categories (chosen by position in the hook list, so every leaf serves as "other")
         o1, o2 = leaf[(3 * k + 1) % len(leaf)]['cls'], leaf[(7 * k + 5) % len(leaf)]['cls']
         others[f['cid']] = (o1, o2)
@@ -48,11 +80,11 @@ def build(tier, seed):
     def hook_wrapper(k, h):
         return 'int c06_default_%d(const %s& x)\n{\n   Rec v; v.ipr::Visitor::visit(x);\n   if (v.calls != 1 || v.who != static_cast<const void*>(static_cast<const ipr::Node*>(&x))) return -2;\n   return v.id == super_hook_id(x) ? 1 : 0;\n}\n' % (k, h['cls'])
     # the driver is split into chunks (one lowered unit each): a unit with all 124 view<> visitors is 11 MB of C and costs 20 s per obligation
-    items = [('n', k, f) for k, f in enumerate(facs)] + [('d', k, h) for k, h in enumerate(hs) if not h['pure']]
+    items = [('n', k, f) for k, f in enumerate(facs)] + [('d', k, h) for k, h in enumerate(hs) if not h['pure']] + [('x', k, dict(cid='x_' + e[0], id=e[0], sig=e[1], body=e[2], cls='(no factory)', name=e[0])) for k, e in enumerate(EXTRA)]
     NCH, DCH = 12, 40
     chunks, cur = [], []
     for it in items:
-        lim = NCH if it[0] == 'n' else DCH
+        lim = DCH if it[0] == 'd' else NCH
         if cur and (cur[0][0] != it[0] or len(cur) >= lim):
             chunks.append(cur); cur = []
         cur.append(it)
@@ -63,17 +95,17 @@ def build(tier, seed):
         text, spans = head, {}
         line = text.count('\n') + 1
         for kind, k, x in chunk:
-            key = x['cid'] if kind == 'n' else 'd%d' % k
-            w = node_wrapper(k, x) if kind == 'n' else hook_wrapper(k, x)
+            key = x['cid'] if kind != 'd' else 'd%d' % k
+            w = node_wrapper(k, x) if kind == 'n' else hook_wrapper(k, x) if kind == 'd' else 'unsigned c06_%s(%s)\n{\n   %s\n   unsigned bad = accept_bad(i);\n   if (i.category != ipr::Category_code::%s || static_code(i) != ipr::Category_code::%s) bad |= 8u;\n   using I = std::remove_cvref_t<decltype(i)>;\n   if (util::view<I>(i) != &i) bad |= 16u;\n   return bad;\n}\n' % (x['cid'], x['sig'], x['body'], re.search(r'const ipr::(\w+)& i =', x['body']).group(1), re.search(r'const ipr::(\w+)& i =', x['body']).group(1))
             n = w.count('\n'); spans[key] = (line, line + n - 1); line += n; text += w
         text += '}\n'
         fname = 'c06_driver_%02d.cxx' % ci
         text, dropped = F.syntax_filter(text, spans, work, fname)
         names = {}
         for kind, k, x in chunk:
-            key = x['cid'] if kind == 'n' else 'd%d' % k
+            key = x['cid'] if kind != 'd' else 'd%d' % k
             if key not in dropped:
-                names[('w_' + x['cid']) if kind == 'n' else 'd_%d' % k] = 'drv::c06_' + (x['cid'] if kind == 'n' else 'default_%d' % k)
+                names[('w_' + x['cid']) if kind != 'd' else 'd_%d' % k] = 'drv::c06_' + (x['cid'] if kind != 'd' else 'default_%d' % k)
         u = Unit('visiting%02d' % ci, os.path.join(work, fname), roots=sorted(names.values()), names=names)
         u.lower(os.path.join(work, 'lowered'))
         return u, dropped
@@ -87,14 +119,14 @@ def build(tier, seed):
             t = F.PRELUDE_C + F.ext_models(unit) + 'void h_%s(void)\n{\n' % f['cid']
             args = []
             for k, (ct, pn) in enumerate(cps):
-                t += ('  %s %s = NEWZ(%s);\n' % (ct, pn, ct[:-1].strip())) if k == 0 else F.operand_decl(ct, pn, k)
+                t += ('  %s %s = NEWZ(%s);\n' % (ct, pn, ct[:-1].strip())) if (k == 0 and ct.endswith('*')) else F.operand_decl(ct, pn, k)
                 args.append(pn)
             t += '  unsigned bad = %s(%s);\n' % (cname, ', '.join(args))
             who = '%s::%s' % (f['cls'].split('::')[-1], f['id'])
             t += '  __CPROVER_assert(!(bad & 1u), "C06 %s: accept() calls exactly one visitor hook");\n' % who
             t += '  __CPROVER_assert(!(bad & 2u), "C06 %s: accept() calls the hook of the node\'s own interface class");\n' % who
             t += '  __CPROVER_assert(!(bad & 4u), "C06 %s: the hook receives the node itself");\n' % who
-            t += '  __CPROVER_assert(!(bad & 8u), "C06 %s: category is the code of the node\'s own interface class");\n' % who
+            t += '  __CPROVER_assert(!(bad & 8u), "C06 %s: category is the enumerator named like the node\'s own interface class");\n' % who
             t += '  __CPROVER_assert(!(bad & 16u), "C06 %s: view<K> yields the node for its own category K");\n' % who
             t += '  __CPROVER_assert(!(bad & 32u), "C06 %s: view<K> yields nothing for another leaf category (%s, %s)");\n' % ((who,) + tuple(x.split('::')[-1] for x in others[f['cid']]))
             t += '  IPR_CANARY_POINT();\n}\n'
@@ -115,9 +147,13 @@ def build(tier, seed):
         units.append(u)
         nobody = set(x['qualified'] for x in u.json['no_body'])
         for kind, k, x in chunk:
-            key = x['cid'] if kind == 'n' else 'd%d' % k
+            key = x['cid'] if kind != 'd' else 'd%d' % k
             if key in dropped:
-                uncovered[x['id'] if kind == 'n' else x['cls']] = 'wrapper rejected by clang: ' + dropped[key][:160]; continue
+                uncovered[x['id'] if kind != 'd' else x['cls']] = 'wrapper rejected by clang: ' + dropped[key][:160]; continue
+            if kind == 'x':
+                others[x['cid']] = ('-', '-')
+                o = Ob('C06.node.other.' + x['id'], u, None, 'h_' + x['cid'], 'CAT + ACCEPT + VIEW(own category) for a node no factory hands out directly: ' + x['id'].replace('_', ' '), kind='K1', replay='C06', timeout=600, flags=['--unwind', '12'], objbits=12)
+                o.gen = mkgen(x); obs.append(o); ncov += 1; continue
             if kind == 'n':
                 if x['cls'] + '::' + x['name'] in nobody:
                     uncovered[x['id']] = 'declared but never defined'; continue
